@@ -289,7 +289,7 @@ let rand_blob r =
 
 let novendor = ref false
 let rec rand_insn ?(small = false) r =
-  let reg () = if small then rand_int r 12 else rand_reg r in
+  let reg () = if small then (if rand_int r 6 = 0 then List.nth regs_bounds (rand_int r (List.length regs_bounds)) else rand_int r 12) else rand_reg r in
   match rand_int r 19 with
   | 0 -> ICfa (reg (), rand_i32 r) | 1 -> ICfaRegister (reg ()) | 2 -> ICfaOffset (rand_i32 r)
   | 3 -> ICfaExpr (rand_blob r) | 4 -> IRestore (reg ()) | 5 -> IUndefined (reg ()) | 6 -> ISameValue (reg ())
